@@ -95,7 +95,7 @@ def late_grandchild():
                 actors={'poll': [['poll', 't_p', 'P1'], ['poll', 'd2', 'P1']]}, horizon=5)
 
 
-def errors(kind='ValueError', where='parent', sync=False, after_sleep=True, ret_exc=False):
+def errors(kind='ValueError', where='parent', sync=False, after_sleep=True, ret_exc=False, root_cls='P'):
     """a raising handler (or one returning an exception object) placed as parent / awaited child / ff child; other events in flight."""
     boom = ([['sleep', 'd1']] if (after_sleep and not sync) else []) + ([['ret_exc', kind]] if ret_exc else [['raise', kind]])
     if kind == 'InnerTimeout':
@@ -103,7 +103,8 @@ def errors(kind='ValueError', where='parent', sync=False, after_sleep=True, ret_
     ok = [['ret', 'ok']]
     handlers = [['A', 'L', 'hL', [['ret', 'l']]], ['A', 'X', 'hX', [['ret', 'x']]]]
     if where == 'parent':
-        handlers += [['A', 'P', 'hBoom', boom, {'sync': sync}], ['A', 'P', 'hOk', ok], ['A', 'P', 'hOk2', [['sleep', 'd2'], ['ret', 'ok2']]]]
+        okv = [['ret', 5]] if root_cls == 'TI' else ok
+        handlers += [['A', root_cls, 'hBoom', boom, {'sync': sync}], ['A', root_cls, 'hOk', okv], ['A', root_cls, 'hOk2', [['sleep', 'd2'], ['ret', 7 if root_cls == 'TI' else 'ok2']]]]
     elif where == 'awaited_child':
         handlers += [['A', 'P', 'hP', [['dispawait', 'A', 'C', 'C1'], ['sleep', 'd2'], ['ret', 'p']]],
                      ['A', 'C', 'hBoom', boom, {'sync': sync}], ['A', 'C', 'hOk', ok]]
@@ -111,7 +112,7 @@ def errors(kind='ValueError', where='parent', sync=False, after_sleep=True, ret_
         handlers += [['A', 'P', 'hP', [['disp', 'A', 'C', 'C1'], ['sleep', 'd2'], ['ret', 'p']]],
                      ['A', 'C', 'hBoom', boom, {'sync': sync}], ['A', 'C', 'hOk', ok]]
     target = 'P1' if where == 'parent' else 'C1'
-    main = [['root', 'A', 'P', 'P1'], ['root', 'A', 'L', 'L1'], ['await', 'P1'], ['idle', 'A'],
+    main = [['root', 'A', root_cls, 'P1'], ['root', 'A', 'L', 'L1'], ['await', 'P1'], ['idle', 'A'],
             ['accessor', target, {'raise_if_any': True, 'raise_if_none': False}],
             ['accessor', target, {'raise_if_any': False, 'raise_if_none': False}], ['obs_all', 'end']]
     return dict(buses=['A'], reals={'d1': D, 'd2': D, 't_x': TI}, handlers=handlers, main=main,
@@ -222,8 +223,8 @@ def perms(names):
 
 
 # =========================================================================== feature matrix M1
-P_KINDS = ('sleep', 'raise', 'sync_raise', 'sync_ret', 'ff', 'ff_raise', 'await', 'await_then', 'sleep_ff', 'ff_await', 'ff_awaitL_awaitC', 'raise_chained')
-C_KINDS = ('ret', 'sleep', 'raise', 'two', 'awaitG', 'ffG')
+P_KINDS = ('sleep', 'raise', 'sync_raise', 'sync_ret', 'ff', 'ff_raise', 'await', 'await_then', 'sleep_ff', 'ff_await', 'ff_awaitL_awaitC', 'raise_chained', 'shared')
+C_KINDS = ('ret', 'sleep', 'raise', 'two', 'awaitG', 'ffG', 'await_then')
 WILD = ('none', 'A', 'B-only', 'busmethod+decoys')
 MAINS = ('await', 'redispatch')
 TIMEOUTS = ('60', 'None')
@@ -246,6 +247,7 @@ def _p_script(kind, i):
         # dispatch C without awaiting, await another event (which makes the inline drain process C first), only then await C
         'ff_awaitL_awaitC': ([['disp', 'A', 'C', 'C_{inv}'], ['dispawait', 'A', 'L', 'L_{inv}'], ['sleep', dv], ['await', 'C_{inv}'], ['ret', r]], {}),
         'raise_chained': ([['sleep', dv], ['raise_chained', 'ValueError']], {}),
+        'shared': ([['dispawait_shared', 'A', 'C', 'Cshared'], ['ret', r]], {}),
     }[kind]
 
 
@@ -269,6 +271,9 @@ def matrix1(par, ph, ch, wild, mainkind, timeout):
         handlers.append(['A', 'C', 'hC0', [['dispawait', 'A', 'G', 'G_{inv}'], ['sleep', 'd2'], ['ret', 'c']]])
     elif ch == 'ffG':
         handlers.append(['A', 'C', 'hC0', [['disp', 'A', 'G', 'G_{inv}'], ['ret', 'c']]])
+    elif ch == 'await_then':
+        # the child's handler awaits a grandchild and only then fire-and-forgets another event
+        handlers.append(['A', 'C', 'hC0', [['dispawait', 'A', 'G', 'G_{inv}'], ['disp', 'A', 'L', 'L_{inv}'], ['ret', 'c']]])
     if ch == 'ffG':
         handlers.append(['A', 'G', 'hG0', [['sleep', 'd2'], ['ret', 'g']]])
     else:
@@ -347,7 +352,7 @@ def pairwise(domains, must=()):
 PH_PAIRS = (('sleep', 'sleep'), ('raise', 'sleep'), ('sleep', 'raise'), ('sync_raise', 'sleep'), ('await', 'sleep'), ('await', 'raise'),
             ('await_then', 'sleep'), ('await_then', 'sync_ret'), ('ff', 'sleep'), ('ff_raise', 'sleep'), ('sleep_ff', 'sleep_ff'),
             ('sleep_ff', 'raise'), ('await', 'sleep_ff'), ('ff', 'ff_raise'), ('raise', 'sync_ret'), ('await_then', 'raise'), ('ff_await', 'sleep'),
-            ('ff_awaitL_awaitC', 'sleep'), ('raise_chained', 'sleep'))
+            ('ff_awaitL_awaitC', 'sleep'), ('raise_chained', 'sleep'), ('shared', 'shared'))
 
 
 def matrix1_rows(tier):
@@ -368,6 +373,9 @@ def matrix1_rows(tier):
         (False, ('await', 'sleep'), 'ffG', 'none', 'await', '60'),
         (False, ('await', 'sleep'), 'sleep', 'busmethod+decoys', 'await', '60'),
         (True, ('await_then', 'sleep'), 'ret', 'busmethod+decoys', 'redispatch', '60'),
+        (True, ('shared', 'shared'), 'sleep', 'none', 'await', '60'),
+        (False, ('shared', 'shared'), 'ret', 'none', 'await', '60'),
+        (False, ('await', 'sleep'), 'await_then', 'none', 'await', '60'),
     ]
     rows = pairwise(doms, must)
     if tier == 'thorough':
@@ -741,3 +749,21 @@ def late_first_use(order=('A', 'B', 'C')):
     main = [['root', 'A', 'P', 'P0'], ['root', 'C', 'L', 'L0'], ['idle', 'A'], ['idle', 'C'], ['root', 'A', 'P', 'P1'], ['sleep', 't1'], ['root', 'B', 'X', 'X1'],
             ['idle', 'A'], ['idle', 'B'], ['root', 'A', 'P', 'P2'], ['root', 'C', 'L', 'L2'], ['idle', 'A'], ['idle', 'C'], ['obs_all', 'end']]
     return dict(buses=['A', 'B', 'C'], order=list(order), reals={'d1': ['1/10', '2/5'], 'd2': ['0', '1/5'], 't1': ['0', '3/10']}, handlers=handlers, main=main, horizon=8)
+
+
+
+def fw_same_names():
+    """three live buses that all asked for the same name (the library auto-renames the 2nd and 3rd), forwarding between the renamed
+    ones."""
+    handlers = [['A', 'P', 'hA', [['ret', 'a']]], ['B', 'P', 'hB', [['sleep', 'd1'], ['ret', 'b']]], ['C', 'P', 'hC', [['ret', 'c']]]]
+    main = [['root', 'B', 'P', 'P1'], ['await', 'P1'], ['idle', 'A'], ['idle', 'B'], ['idle', 'C'], ['root', 'A', 'P', 'P2'], ['idle', 'A'], ['idle', 'B'], ['idle', 'C'], ['obs_all', 'end']]
+    return dict(buses=['A', 'B', 'C'], order=['A', 'B', 'C'], bus_names={'A': 'Worker', 'B': 'Worker', 'C': 'Worker'}, reals={'d1': ['0', '1/5']},
+                handlers=handlers, forwards=[['B', 'C'], ['A', 'B']], main=main, horizon=7)
+
+
+def fw_idle_then_stop():
+    """A forwards to a warm, idle bus B; right after awaiting the event on A, main gracefully stops B (stop with a timeout waits for
+    idle first): the forwarded event must still be processed by B."""
+    handlers = [['A', 'P', 'hA', [['sleep', 'd1'], ['ret', 'a']]], ['B', 'P', 'hB', [['sleep', 'd2'], ['ret', 'b']]], ['B', 'X', 'hXB', [['ret', 'x']]]]
+    main = [['root', 'B', 'X', 'X0'], ['idle', 'B'], ['root', 'A', 'P', 'P1'], ['await', 'P1'], ['stop', 'B', {'timeout': 2.0}], ['idle', 'A'], ['obs_all', 'end']]
+    return dict(buses=['A', 'B'], order=['A', 'B'], reals={'d1': ['0', '1/5'], 'd2': ['0', '1/5']}, handlers=handlers, forwards=[['A', 'B']], main=main, horizon=7)
